@@ -301,7 +301,8 @@ pub fn run(e: &Engine) {
         rec.class("file_over_64KiB_through_scripted_sink");
         check(c, rec)
     });
-    e.require_class("bytes_written_checked_after_failed_insert", 1);
+    // a builder that batches its writes may never touch the sink during an insert on these inputs
+    e.expect_class("bytes_written_checked_after_failed_insert", 1);
     for cls in ["short_write_or_interrupt_in_nodes_or_footer", "sink:bufwriter", "sink:cursor", "sink:prefilled_vec", "sink:&mut_vec"] {
         e.require_class(cls, 1);
     }
